@@ -1,4 +1,8 @@
+pub mod c03;
+pub mod c04;
 pub mod c08;
+pub mod c13;
+pub mod c16;
 
 use crate::common::Tier;
 use serde_json::Value;
@@ -6,7 +10,11 @@ use serde_json::Value;
 pub fn run(prop: &str, tier: Tier) -> i32 {
     crate::common::quiet_panics();
     match prop {
+        "C03" => c03::run(tier),
+        "C04" => c04::run(tier),
         "C08" => c08::run(tier),
+        "C13" => c13::run(tier),
+        "C16" => c16::run(tier),
         _ => {
             eprintln!("unknown property {prop}");
             2
@@ -17,7 +25,11 @@ pub fn run(prop: &str, tier: Tier) -> i32 {
 pub fn replay(prop: &str, case: &Value) -> Vec<String> {
     crate::common::quiet_panics();
     match prop {
+        "C03" => c03::replay(case),
+        "C04" => c04::replay(case),
         "C08" => c08::replay("C08", case),
+        "C13" => c13::replay(case),
+        "C16" => c16::replay(case),
         _ => vec![],
     }
 }
